@@ -206,6 +206,32 @@ def tmplpair_case(draw):
             "enum": en, "draws": draws}
 
 
+@st.composite
+def inherit_hist_case(draw):
+    """chain of plain records C0 <- C1 (<- C2), every level adds >= 1 member, plus an aggregate record whose
+    members are two chain classes in a drawn order; `order` = the order of FIRST serialisation (the layout is
+    cached lazily per class, so the outcome may depend on this history)."""
+    depth = draw(st.integers(2, 3))
+    levels = [[draw(_plain_field()) for _ in range(draw(st.integers(1, 2)))] for _ in range(depth)]
+    i, j = draw(st.permutations(list(range(depth))))[:2]
+    items = [f"c{k}" for k in range(depth)] + ["agg"]
+    order = draw(st.permutations(items))
+    draws = draw(st.lists(st.integers(0, (1 << 64) - 1), min_size=4, max_size=8))
+    return {"kind": "inherit_hist", "levels": [[[f"m{k}_{n}", fs] for n, fs in enumerate(lv)] for k, lv in enumerate(levels)],
+            "agg": [i, j], "order": list(order), "draws": draws}
+
+
+def render_inherit_prelude(case) -> str:
+    """module defining the chain classes C0, C1, ... (no serialisation happens here)"""
+    r = Renderer()
+    body = [HEADER]
+    for k, fields in enumerate(case["levels"]):
+        parent = "std.Record" if k == 0 else f"C{k - 1}"
+        body.append(f"class C{k}({parent}):\n" + "\n".join(f"    {n}: {r.texpr(fs)}" for n, fs in fields))
+    assert not r.defs, "chain member types must not need class definitions"
+    return "\n\n".join(body) + "\n"
+
+
 def render_pair_prelude(case) -> str:
     """module defining the template declaration PB, the derived PE and their specialisations TB / TE"""
     tm = case["tmpl"]
